@@ -697,7 +697,13 @@ impl QueryEngine {
 
                     let low = Self::convert_scalar_to_predicate_value(&between.low)?;
                     let high = Self::convert_scalar_to_predicate_value(&between.high)?;
-                    Some(ColumnPredicate::Between(col.name.clone(), low, high))
+                    let pred = ColumnPredicate::Between(col.name.clone(), low, high);
+                    // `col NOT BETWEEN a AND b` arrives as a Between node with `negated` set
+                    if between.negated {
+                        Some(ColumnPredicate::Not(Box::new(pred)))
+                    } else {
+                        Some(pred)
+                    }
                 } else {
                     None
                 }
